@@ -921,12 +921,26 @@ func (s *BlockMapSpec) visitSameBodyChildren(cb visitFunc) {
 	// leaf node ("Nested" does not use the same body)
 }
 
+// blockLabelNames returns the label names of a block type whose first labels
+// are the given map keys and whose remaining labels are those used by
+// BlockLabelSpecs in the nested spec. The result is always a new slice:
+// appending to the spec's own LabelNames would write into its backing array
+// whenever that has spare capacity, which is a data race when one spec is
+// used for decoding from several goroutines.
+func blockLabelNames(keyNames []string, nested Spec) []string {
+	nestedNames := findLabelSpecs(nested)
+	ret := make([]string, 0, len(keyNames)+len(nestedNames))
+	ret = append(ret, keyNames...)
+	ret = append(ret, nestedNames...)
+	return ret
+}
+
 // blockSpec implementation
 func (s *BlockMapSpec) blockHeaderSchemata() []hcl.BlockHeaderSchema {
 	return []hcl.BlockHeaderSchema{
 		{
 			Type:       s.TypeName,
-			LabelNames: append(s.LabelNames, findLabelSpecs(s.Nested)...),
+			LabelNames: blockLabelNames(s.LabelNames, s.Nested),
 		},
 	}
 }
@@ -1102,7 +1116,7 @@ func (s *BlockObjectSpec) blockHeaderSchemata() []hcl.BlockHeaderSchema {
 	return []hcl.BlockHeaderSchema{
 		{
 			Type:       s.TypeName,
-			LabelNames: append(s.LabelNames, findLabelSpecs(s.Nested)...),
+			LabelNames: blockLabelNames(s.LabelNames, s.Nested),
 		},
 	}
 }
